@@ -36,6 +36,8 @@ CHECKS = {
          "seek semantics beyond either end not compared; re-entrant callbacks not driven; calls that cannot return on this tree are probed separately on a helper thread"),
  "C20": ("exploration", "the warcraft-rs binary driven on generated inputs: create->extract byte identity over versions x compressions x listfile x extract options, list/info against the library's view, and every sub-command of every format family on valid, truncated and corrupted inputs judged against the verdict of the library call it wraps (computed in-process) and against the promised output (exists, parses, equals the library writer's bytes)", "process-boundary monitor: exit status / output oracle against the library's own answer; valgrind memcheck on the raw hex-dump paths (thorough)", "§6 C20",
          "a panic exit counts as non-zero but is reported as panic-exit; names avoid listfile syntax and option-like prefixes; known upstream findings (PKWare, bomb ratio) kept out of the workload"),
+ "C09": ("exploration", "all nine parallel interfaces x thread counts {1,2,3,7,16,32,default} x batch sizes x request shapes (empty, duplicates incl. interleaved, 999..5200 names, missing names at every kind of position, skip-errors on/off) compared slot by slot with a sequential baseline, each configuration repeated under seeded delays and background CPU load; task-event hook yields completion orders and thread assignments (distinct schedules counted, no-diversity reported); ThreadSanitizer slice (thorough)", "per-slot equality with sequential reads; task-event trace hook (schedule diversity measured); ThreadSanitizer", "§6 C09",
+         "no control over the OS scheduler: diversity is induced and measured; TSan reports inside crossbeam-epoch reclamation (fences TSan does not model) are suppressed and counted"),
  "C10": ("fault_enumeration", "byte corruption at enumerated offsets of every protected region (file data, sector offset/CRC tables, attributes, V4 header and tables, signature) of archives carrying each kind of integrity metadata, plus paired corruptions (checksum zeroed + data flipped, attribute forged to match); verifier per kind as the statement names it; sign/verify/bit-flip sweep of the weak-signature functions", "fault enumeration (every k-th / every offset) with a detection oracle: error or invalid status, or content bit-identical", "§6 C10",
          "a crash while reading a corrupted archive is tallied (C05's clause) but not judged here; multi-sector sector-checksum verification is a known finding (never compared)"),
  "C12": ("fault_enumeration", "every state-changing syscall of build/compact (V1-V4, dest absent/present) is killed or failed (ENOSPC, EIO) with strace inject, plus two-fault sequences and RLIMIT_FSIZE short-write sweeps; a separate process judges the destination path afterwards (old | absent | complete new archive)", "syscall-level fault injection (strace) + post-mortem file-system oracle", "§6 C12",
@@ -47,7 +49,7 @@ NOT_YET = {}
 for i in range(1, 21):
     pid = f"C{i:02d}"
     if pid not in CHECKS:
-        NOT_YET[pid] = "check not built yet (work in progress; see DESIGN.md for the planned monitor)"
+        NOT_YET[pid] = "check not built"
 
 def main():
     checks = []
